@@ -641,13 +641,19 @@ class Subscription(BaseSubscription):
                 self.log.debug("bad query %s", filter_obj)
                 filter_obj = NostrQuery()
                 subwhere = []
+            if filter_obj.limit is not None:
+                filter_limit = min(filter_obj.limit, self.default_limit)
+            else:
+                filter_limit = self.default_limit
             if subwhere:
                 subwhere = " AND ".join(subwhere)
+                if len(filters) > 1:
+                    # each filter is cut to its own limit
+                    subwhere = f"id IN (SELECT id FROM events WHERE {subwhere} ORDER BY created_at DESC LIMIT {filter_limit})"
                 where.add(subwhere)
             else:
                 where.add("false")
-            if filter_obj.limit is not None:
-                limit = min(filter_obj.limit, self.default_limit)
+            limit = (limit or 0) + filter_limit
             new_filters.append(filter_obj)
         if where:
             select += " WHERE (\n\t"
